@@ -173,6 +173,15 @@ theorem c20_keep_is_age (now : Int) (e : Event) (h : (retention : Int) ≤ now)
   apply decide_eq_decide.mpr
   omega
 
+/-- no bound on the length of a history: when every entry is within the retention, the history
+read back after save + restart is the saved one, whatever its size -/
+theorem c20_saveload_no_cap (m : Rec) (now : Int) (u : String) (l0 : DL) (h0 : m u = some l0)
+    (hk : ∀ e ∈ l0.snapshot, keep now e = true) :
+    ((load now (save m)) u).map DL.snapshot = some l0.snapshot := by
+  rw [(c20_saveload m now u).1, h0]
+  simp only [Option.map_some, Option.some.injEq]
+  exact List.filter_eq_self.mpr hk
+
 /-- nothing else is lost and nothing is reordered: the reloaded history is a sublist of the saved one -/
 theorem c20_saveload_order (m : Rec) (now : Int) (u : String) (l0 l1 : DL)
     (h0 : m u = some l0) (h1 : (load now (save m)) u = some l1) :
